@@ -647,8 +647,9 @@ static void mode_zchain(void) {
   }
 }
 static const char* ze_names[] = { "mi_zalloc", "mi_calloc", "mi_zalloc_small", "mi_zalloc_aligned(64)", "mi_zalloc_aligned(4096)", "mi_zalloc_aligned(64MiB)", "mi_calloc_aligned(32)", "mi_heap_zalloc", "mi_heap_calloc",
-  "mi_zalloc_aligned_at(64,8)", "mi_rezalloc(NULL)", "mi_recalloc(NULL)", "mi_heap_zalloc_aligned(128)", "mi_heap_calloc_aligned(16)", "mi_rezalloc_aligned(NULL,256)", "mi_heap_rezalloc(NULL)" };
-#define ZE_N 16
+  "mi_zalloc_aligned_at(64,8)", "mi_rezalloc(NULL)", "mi_recalloc(NULL)", "mi_heap_zalloc_aligned(128)", "mi_heap_calloc_aligned(16)", "mi_rezalloc_aligned(NULL,256)", "mi_heap_rezalloc(NULL)",
+  "mi_zalloc_aligned(8)", "mi_zalloc_aligned(16)", "mi_heap_zalloc_aligned(1)", "mi_zalloc_aligned_at(16,0)", "mi_calloc_aligned(8)" };   /* (alignments a plain block satisfies anyway) */
+#define ZE_N 21
 static void* ze_call(int e, size_t n, size_t* al, size_t* off) {
   mi_heap_t* h = mi_heap_get_default(); *al = 0; *off = 0;
   switch (e) {
@@ -668,6 +669,11 @@ static void* ze_call(int e, size_t n, size_t* al, size_t* off) {
     case 13: *al = 16; return mi_heap_calloc_aligned(h, 1, n, 16);
     case 14: *al = 256; return mi_rezalloc_aligned(NULL, n, 256);
     case 15: return mi_heap_rezalloc(h, NULL, n);
+    case 16: *al = 8; return mi_zalloc_aligned(n, 8);
+    case 17: *al = 16; return mi_zalloc_aligned(n, 16);
+    case 18: *al = 1; return mi_heap_zalloc_aligned(h, n, 1);
+    case 19: *al = 16; return mi_zalloc_aligned_at(n, 16, 0);
+    case 20: *al = 8; return mi_calloc_aligned(1, n, 8);
   }
   return NULL;
 }
